@@ -155,6 +155,10 @@ MReg == /\ mpc = "reg" /\ evLock = "none"
         /\ IF dirGen = 0 THEN mpc' = AfterPrep /\ UNCHANGED <<evLock, watchGen, inq, mscan>>
            ELSE /\ evLock' = "m" /\ watchGen' = dirGen /\ inq' = <<>> /\ mpc' = "list" /\ UNCHANGED mscan
         /\ UNCHANGED <<mbatch, mcontent, dirDeleted, started, queue, active>> /\ MUnch
+\* transient failure of the registration (inotify_init1 / inotify_add_watch / epoll_ctl: EMFILE, ENOSPC, ENOMEM): nothing is
+\* registered, the flag stays raised, a later tick tries again.  Not part of MLoop: an environment fault, budgeted by users
+MRegFail == /\ mpc = "reg" /\ evLock = "none" /\ mpc' = AfterPrep
+            /\ UNCHANGED <<mbatch, mscan, mcontent, watchGen, inq, dirDeleted, started, evLock, queue, active>> /\ MUnch
 \* readDir, sorted: the files there NOW (changes after the registration are also reported as events)
 MList == /\ mpc = "list" /\ mpc' = "scan"
          /\ mscan' = SortedSeq({n \in Names : dirGen # 0 /\ files[n] # None /\ ~IsDot(n)})
